@@ -475,6 +475,14 @@ def bld_families():
             S(8, [Field([(0, 4)], 'u', access=acc), Field([(4, 4)], 'u')], dflt, "GAPS")
             S(12, [Field([(0, 4)], 'u'), Field([(4, 4)], 'u', access=acc), Field([(8, 4)], 'u')], dflt, "GAPS")
             S(12, [Field([(0, 4)], 'u'), Field([(2, 4)], 'u', access=acc), Field([(8, 4)], 'u')], dflt, "GAPS")
+    # the struct-level options in both orders: `debug` must not change whether a builder is offered
+    for dfirst in (False, True):
+        for fs_, dflt in ((lambda: [Field([(0, 4)], 'u')], 5), (lambda: [Field([(0, 4)], 'u'), Field([(4, 4)], 'u', access='r')], 0),
+                          (lambda: [Field([(0, 4)], 'u'), Field([(4, 4)], 'u')], None), (lambda: [Field([(0, 4)], 'u')], None)):
+            fl = fs_()
+            for i_, f_ in enumerate(fl):
+                f_.name = f"f{i_}"
+            out.append(Struct(8, fl, default=dflt, name="S", family="DEBUGOPT", debug=True, debug_first=dfirst))
     # completeness is judged against the declared width, not the storage width
     for n in (7, 12, 24, 31, 33, 100):
         S(n, [Field([(0, n)], 'u')], None, "WIDTH")
